@@ -18,6 +18,10 @@ Generic (file-based / compressor) framers: harness side of lean/EasyNet/EasyNet/
   optionally behind a converter; mode `direct` (protocol generators driven by hand: the remainder handed back with every
   item is compared with the bytes after the frame; oracle only, no model run); delivered packets are retained and
   re-rendered at the end of every run (`streamdrive.Retain`).
+* session 4 (docs/SER-STRENGTHENING.md sections 6-7): frames `as: big` = over-long tokens of separator framers (`_overlong_family`,
+  `_gen_overlong`, C02 / C06): in mode direct the bytes each generator was given are recorded (`GIVEN`) and the remainder carried
+  by every size error is compared with the unread bytes (`_limit_remainder`); in mode stream the items must resume behind the
+  over-long token (`_resumes_after_big`).  A property module may veto the generic model run of a case through its `SKIP` set.
 """
 from __future__ import annotations
 
@@ -345,6 +349,8 @@ def drive_direct(spec: dict, path: str, stream: bytes, cuts: list[int], hint: in
     keep = sd.Retain()
     budget = [len(stream) + 4]
     cleanup: list[Any] = []      # generators / views still open when the run stops early (closed in reverse order)
+    acc = [b""]                  # the bytes the generator in progress has been given so far
+    GIVEN.clear()
 
     def item(fn, fed: int) -> bytes | None:
         """run one generator step; None = it wants more data"""
@@ -366,6 +372,7 @@ def drive_direct(spec: dict, path: str, stream: bytes, cuts: list[int], hint: in
         else:
             return None
         lines.append(f"rem {fed} {core.hexs(rem)}")
+        GIVEN.append(acc[0])
         budget[0] -= 1
         if budget[0] < 0:
             lines.append("loop")
@@ -392,7 +399,9 @@ def drive_direct(spec: dict, path: str, stream: bytes, cuts: list[int], hint: in
                         gen, fed = proto.build_packet_from_chunks(), 0
                         cleanup[:] = [gen.close]
                         next(gen)
+                        acc[0] = b""
                     fed += len(arg)
+                    acc[0] += arg
                     rem = item(lambda: gen.send(arg), fed)   # noqa: B023
                     if rem is None:
                         break
@@ -409,6 +418,7 @@ def drive_direct(spec: dict, path: str, stream: bytes, cuts: list[int], hint: in
                     cleanup[:] = [view.release, state["gen"].close]
                     state["start"] = next(state["gen"]) or 0
                     state["fed"] = 0
+                    acc[0] = b""
 
             def step(nb: int) -> None:
                 state["start"] = state["gen"].send(nb) or 0
@@ -430,6 +440,7 @@ def drive_direct(spec: dict, path: str, stream: bytes, cuts: list[int], hint: in
                 lines.append(f"read {n}")
                 i += n
                 nb, already = n + already, 0
+                acc[0] += stream[i - n:i]
                 while nb:
                     state["fed"] += nb
                     rem = item(lambda: step(nb), state["fed"])   # noqa: B023
@@ -442,6 +453,7 @@ def drive_direct(spec: dict, path: str, stream: bytes, cuts: list[int], hint: in
                         ensure()
                         view[state["start"]:][:len(rem)] = rem
                         nb = len(rem)
+                        acc[0] += rem
     except _Stop:
         pass
     finally:
@@ -456,6 +468,9 @@ def drive_direct(spec: dict, path: str, stream: bytes, cuts: list[int], hint: in
 
 class _Stop(Exception):
     pass
+
+
+GIVEN: list[bytes] = []      # mode direct: for every item of the last run, the bytes its generator had been given
 
 
 def _oneshot_line(spec: dict, d: bytes) -> str:
@@ -490,7 +505,8 @@ def run_real(case: dict) -> list[str]:
         lines, chunks = drive_direct(spec, case["path"], stream, case["cuts"], case["hint"], conv, poison)
     else:
         lines, chunks = drive(spec, case["path"], stream, case["cuts"], case["hint"], conv, poison)
-    _aux[core.case_digest(case)] = {"chunks": chunks, "frames": [len(f) for f in frames]}
+    _aux[core.case_digest(case)] = {"chunks": chunks, "frames": [len(f) for f in frames],
+                                    "given": list(GIVEN) if case["mode"] == "direct" else None}
     return lines
 
 
@@ -615,6 +631,11 @@ def oracle(case: dict, real: list[str]) -> str | None:
         return why
     items = [ln for ln in real if ln.startswith(("pkt ", "err "))]
     lim = sers.limit_of(case["spec"])
+    why = _limit_remainder(case, real, items)
+    if why:
+        return why
+    if any(f.get("as") == "big" for f in case["frames"]):
+        return _resumes_after_big(case, real, items)
     exp = _expected_items(case)
     # C06 ("... or reports a parse error CARRYING THE UNREAD REMAINDER"): behind the real consumers the remainder is what the
     # next items are made of, so for a stream of well-delimited frames the statement means: the valid frames behind a
@@ -672,10 +693,94 @@ def oracle(case: dict, real: list[str]) -> str | None:
     return None
 
 
+def _sep_tail(data: bytes, sep: bytes) -> bytes:
+    """the longest suffix of `data` that is a PROPER prefix of `sep` (what may be the beginning of a terminator)"""
+    for n in range(min(len(sep) - 1, len(data)), 0, -1):
+        if data.endswith(sep[:n]):
+            return sep[:n]
+    return b""
+
+
+def _limit_remainder(case: dict, real: list[str], items: list[str]) -> str | None:
+    """C06 "…reports a parse error CARRYING THE UNREAD REMAINDER", for the size error of a separator framer (mode direct: the
+    remainder is looked at the moment the error is raised, next to the bytes the failing generator had been given).
+    A token rejected for its size extends to its terminator (C02: decoding resumes behind it), so what the error has READ is
+    the token, and what it has not is
+      * terminator seen   : everything behind the first terminator;
+      * terminator not yet: the longest suffix of the received bytes that is a proper prefix of the separator — those bytes
+        may be the beginning of the terminator; dropping one of them glues the rest of the terminator to the next frame,
+        keeping anything before them re-delivers bytes that were already judged.
+    Written from the property and the resumption clause; the copying reader documents the same for read_until()."""
+    if case["mode"] != "direct" or case["prop"] not in ("C02", "C06"):
+        return None
+    sep = sers.separator(case["spec"])
+    aux = _aux.get(core.case_digest(case))
+    if sep is None or not aux or not aux.get("given"):
+        return None
+    rems = [ln.split() for ln in real if ln.startswith("rem ")]
+    for i, (it, r, given) in enumerate(zip(items, rems, aux["given"])):
+        if it != "err limit":
+            continue
+        got = b"" if r[2] == "-" else bytes.fromhex(r[2])
+        j = given.find(sep)
+        want = given[j + len(sep):] if j != -1 else _sep_tail(given, sep)
+        COUNT["limit_remainders_checked"] += 1
+        if j == -1 and want and len(sep) >= 3:
+            COUNT["limit_remainders_partial_terminator_sep3"] += 1
+        if got != want:
+            what = "behind the terminator" if j != -1 else f"the received beginning of the terminator {sep.hex()}"
+            return (f"item #{i} (err limit): the error carries the remainder {got.hex() or '-'} but the unread bytes are "
+                    f"{want.hex() or '-'} ({what}; the generator had been given …{given[-24:].hex()})")
+        if len(got) >= len(given):
+            return f"item #{i} (err limit) consumed nothing: remainder of {len(got)} bytes from {len(given)} given"
+    return None
+
+
+def _resumes_after_big(case: dict, real: list[str], items: list[str]) -> str | None:
+    """streams with over-long tokens (frames `as: big`): every other frame gives exactly its item, in order; a big frame gives
+    at least one size error and whatever else is made of its own bytes — then decoding resumes with the frame behind its
+    terminator (the item list is matched against that pattern)"""
+    import functools
+    conv, poison = _conv_of(case)
+    pat: list[str | None] = []
+    for f in case["frames"]:
+        if f["t"] == "pkt":
+            e = sers.expected_received(case["spec"], sers.dec_val(f["v"]))
+            pat.append(sd.pkt_line(sd.Wrapped(e) if conv else e))
+        elif f.get("as") == "bad":
+            pat.append("err parse")
+        elif f.get("as") == "big":
+            pat.append(None)
+        else:
+            return None
+    n, m = len(pat), len(items)
+
+    @functools.lru_cache(maxsize=None)
+    def match(i: int, j: int) -> bool:
+        if i == n:
+            return j == m
+        if pat[i] is not None:
+            return j < m and items[j] == pat[i] and match(i + 1, j + 1)
+        seen = False
+        for k in range(j, m):
+            seen = seen or items[k] == "err limit"
+            if seen and match(i + 1, k + 1):
+                return True
+        return False
+
+    if not match(0, 0):
+        return (f"delivered {items[:8]} does not resume behind the over-long token: expected "
+                f"{[p or '<size error(s)>' for p in pat][:8]}")
+    tail = [ln for ln in real if ln.startswith("buf ")]
+    if tail and tail[-1].split()[1] != "-":
+        return f"bytes left over after the last frame: {tail[-1]}"
+    return None
+
+
 def nontrivial(case: dict, real: list[str]) -> str | None:
     k = sers.recv_spec(case["spec"])["k"]
     if case["mode"] != "stream":
-        return f"generic/{k}/{case['mode']}"
+        return f"generic/{k}/{case['mode']}" + ("/big" if any(f.get("as") == "big" for f in case.get("frames", [])) else "")
     aux = _aux.get(core.case_digest(case))
     tags = set()
     if aux:
@@ -689,6 +794,8 @@ def nontrivial(case: dict, real: list[str]) -> str | None:
                 tags.add("straddle")
     if any(f.get("as") == "bad" for f in case["frames"]):
         tags.add("bad")
+    if any(f.get("as") == "big" for f in case["frames"]):
+        tags.add("big")
     if "err limit" in real:
         tags.add("limit")
     if case.get("unterminated"):
@@ -917,6 +1024,125 @@ def _gen_stream_any(rng, prop: str) -> dict | None:
     return case
 
 
+OVERLONG_SPECS = [
+    {"k": "autosep", "sep": "3c454f543e", "limit": 12, "check": True},                    # <EOT>
+    {"k": "autosep", "sep": "0d0a2e0d0a", "limit": 12, "check": True},                    # \r\n.\r\n  (first byte occurs twice)
+    {"k": "autosep", "sep": "3c7c3e", "limit": 10, "check": True},
+    {"k": "autosep", "sep": "616162", "limit": 10, "check": True},                        # aab: self-overlapping
+    {"k": "autosep", "sep": "61626162", "limit": 12, "check": True},                      # abab: border of length 2
+    {"k": "autosep", "sep": "0d0a", "limit": 8, "check": True},
+    {"k": "autosep", "sep": "0a", "limit": 8, "check": True, "debug": True},
+    {"k": "line", "newline": "CRLF", "keep_end": False, "encoding": "ascii", "limit": 10},
+    {"k": "line", "newline": "CRLF", "keep_end": True, "encoding": "utf-8", "errors": "replace", "limit": 10, "debug": True},
+    {"k": "json", "use_lines": True, "limit": 16},
+    {"k": "b64", "inner": {"k": "json", "use_lines": True, "limit": 65536}, "alphabet": "urlsafe", "checksum": False,
+     "separator": "3c454f543e", "limit": 24},
+    {"k": "b64", "inner": {"k": "line", "newline": "LF", "limit": 65536, "encoding": "utf-8"}, "alphabet": "standard", "checksum": False,
+     "separator": "0d0a2e0d0a", "limit": 24, "debug": True},
+    {"k": "stapledbuf", "sent": {"k": "autosep", "sep": "3c2d2d3e", "limit": 12, "check": True},
+     "received": {"k": "autosep", "sep": "3c2d2d3e", "limit": 12, "check": True}},
+]
+
+
+def _big_frame(spec: dict, n: int, tail: bytes = b"") -> dict:
+    """an over-long token of n payload bytes (filler that is no separator byte; `tail` = a proper prefix of the separator kept at
+    its end where that does not complete the separator early) followed by its terminator"""
+    sep = sers.separator(spec)
+    fill = next(bytes([c]) for c in b"qbxyz" if c not in sep)
+    p = fill * (n - len(tail)) + tail
+    if (p + sep).find(sep) != len(p):
+        p = fill * n
+    return {"t": "raw", "hex": (p + sep).hex(), "as": "big"}
+
+
+def _small_packets(spec: dict) -> list[Any]:
+    k = sers.recv_spec(spec)["k"]
+    leaf = sers._leaf_spec(spec)["k"]
+    if leaf == "json":
+        return [[1], {"i": 2}]
+    if leaf == "line":
+        nl = sers.NEWLINES[sers.recv_spec(spec)["newline"]].decode() if (k == "line" and sers.keep_end(spec)) else ""
+        return ["ab" + nl, "c" + nl]
+    return [p for p in (b"ab", b"c", b"xy", b"q", b"zz") if sers.valid_packet(spec, p)][:2]
+
+
+def _overlong_family(prop: str):
+    """deterministic: over-long token | valid | valid, ONE cut after 0..|sep| bytes of the over-long token's terminator (k bytes of
+    the separator arrive with the end of the token), the rest in one read or dripped; token lengths from just over the limit to
+    limit + 2|sep| + 2 (so that on the buffered path the read that fills the buffer ends inside the terminator for some of
+    them); both paths; through the consumers (stream) and the protocol generators (direct)"""
+    for spec in OVERLONG_SPECS:
+        sep, lim = sers.separator(spec), sers.limit_of(spec)
+        small = [{"t": "pkt", "v": sers.enc_val(p)} for p in _small_packets(spec)]
+        paths = ("copy", "buffered") if sers.is_buffered(spec) else ("copy",)
+        flip = 0
+        for n in (lim + 1, lim + len(sep) + 1, 2 * lim, 3 * lim + 1):
+            for tl in ((b"", sep[:1]) if n in (lim + 1, 2 * lim) and len(sep) > 1 else (b"",)):
+                frames = [_big_frame(spec, n, tl)] + small
+                for k in range(0, len(sep) + 1):
+                    for rest in ([1000], [1]):
+                        for path in paths:
+                            flip += 1
+                            yield {"kind": "generic", "prop": prop, "mode": ("direct", "stream")[flip % 2], "path": path, "spec": spec,
+                                   "frames": frames, "cuts": [n + k] + rest, "hint": 4}
+                    flip += 1
+                for path in paths:
+                    # drip feed and odd read sizes from the start: the buffered path raises as soon as its buffer (= limit) is full,
+                    # wherever that falls in the token or in its terminator
+                    for cuts in ([1], [2], [3], [lim - 1, 1], [5, 3, 1]):
+                        flip += 1
+                        yield {"kind": "generic", "prop": prop, "mode": ("direct", "stream")[flip % 2], "path": path, "spec": spec,
+                               "frames": frames, "cuts": [c for c in cuts if c > 0], "hint": 4}
+
+
+def _gen_overlong(rng, prop: str) -> dict:
+    """random: separator framers with 1..5-byte separators (rich option space), several over-long / valid / undecodable frames,
+    over-long tokens ending with parts of the separator, cuts drawn around the terminators"""
+    if rng.random() < 0.5:
+        spec = dict(rng.choice(OVERLONG_SPECS))
+        if spec["k"] == "autosep":
+            spec["limit"] = rng.choice([8, 10, 12, 16, 31])
+    else:
+        sep = rng.choice(sers.AUTOSEP_SEPS + ["3c454f543e", "0d0a2e0d0a", "61626162", "6161616161"])
+        spec = {"k": "autosep", "sep": sep, "limit": rng.choice([8, 10, 12, 16, 31]), "check": True}
+        if rng.random() < 0.3:
+            spec["debug"] = True
+        if rng.random() < 0.3:
+            spec["hold"] = rng.choice(["arg", "text"])
+    sep, lim = sers.separator(spec), sers.limit_of(spec)
+    small = _small_packets(spec)
+    frames: list[dict] = []
+    for _ in range(rng.randint(1, 4)):
+        r = rng.random()
+        if r < 0.5:
+            n = rng.choice([lim + 1, lim + len(sep), lim + len(sep) + 1, rng.randint(lim + 1, 3 * lim + 4)])
+            frames.append(_big_frame(spec, n, sep[:rng.randint(0, len(sep) - 1)] if rng.random() < 0.5 else b""))
+        elif r < 0.6 and (b := sers.bad_frame(rng, spec)) is not None and len(b) + 1 < lim:
+            frames.append({"t": "raw", "hex": b.hex(), "as": "bad"})
+        else:
+            frames.append({"t": "pkt", "v": sers.enc_val(rng.choice(small))})
+    frames.append({"t": "pkt", "v": sers.enc_val(small[-1])})
+    lens = [len(_frame_bytes(spec, f)) for f in frames]
+    r = rng.random()
+    if r < 0.3:
+        cuts = [rng.choice([1, 1, 2, 3])]
+    elif r < 0.75:
+        # one cut inside (or next to) the terminator of every frame
+        cuts, prev, pos = [], 0, 0
+        for n in lens:
+            pos += n
+            c = pos - rng.randint(0, len(sep))
+            if c > prev:
+                cuts.append(c - prev)
+                prev = c
+        cuts.append(1000 if rng.random() < 0.5 else 1)
+    else:
+        cuts = [rng.choice([1, 2, 3, 5, lim - 1, lim, lim + 1, 2 * lim]) for _ in range(rng.randint(1, 8))]
+    path = "buffered" if (sers.is_buffered(spec) and rng.random() < 0.5) else "copy"
+    return {"kind": "generic", "prop": prop, "mode": "direct" if rng.random() < 0.5 else "stream", "path": path, "spec": spec,
+            "frames": frames, "cuts": [c for c in cuts if c > 0] or [1], "hint": rng.choice([1, 2, 4, 16, 16384])}
+
+
 def _mutate(rng, spec: dict, frames: list[dict]) -> list[dict]:
     """C06: the same stream with bytes flipped / dropped / inserted — no frame structure is promised any more"""
     data = bytearray(b"".join(_frame_bytes(spec, f) for f in frames))
@@ -1035,6 +1261,12 @@ def generate(prop: str, rng, tier: str, boost: int):
         c = _gen_stream_any(rng2, prop)
         if c is not None:
             yield c
+    # over-long tokens of separator framers: the remainder carried by the size error, and the resumption behind the terminator
+    if prop in ("C02", "C06"):
+        yield from _overlong_family(prop)
+        rng3 = core.sub_rng(rng.getrandbits(32), "overlong", prop)
+        for _ in range({"C02": 300, "C06": 800}[prop] * (1 if tier == "quick" else 20) * boost):
+            yield _gen_overlong(rng3, prop)
 
 
 # ------------------------------------------------------------------------------------------------
@@ -1057,6 +1289,8 @@ def _existing_model_input(g: dict, case: dict, real: list[str]):
         return None
     if not is_generic(spec):
         return None
+    if g.get("SKIP") and core.case_digest(case) in g["SKIP"]:
+        return None         # the property module sub-samples the model runs of its big frames (counted in its evidence)
     path = case.get("path") or case.get("mode")
     if path not in ("copy", "buffered"):
         return None
@@ -1173,7 +1407,9 @@ def install(g: dict, prop: str) -> None:
         d["generic_framers"] = {"model_runs": COUNT["model_runs"], "loader_tables": LAW["tables"], "table_entries": LAW["entries"],
                                 "loader_law_samples": LAW["samples"], "loader_law_violations": LAW["violations"],
                                 "skipped_too_many_starts": LAW["skipped_too_many_starts"],
-                                "direct_mode_cases_oracle_only_no_model_run": COUNT["direct_runs"]}
+                                "direct_mode_cases_oracle_only_no_model_run": COUNT["direct_runs"],
+                                "limit_error_remainders_checked": COUNT["limit_remainders_checked"],
+                                "of_which_partial_terminator_of_a_separator_of_3_bytes_or_more": COUNT["limit_remainders_partial_terminator_sep3"]}
         if "serializer_models" in d:
             d["serializer_models"] += ("; [generic framers] file-based (ToyFile, PeekFile) and zlib/bz2 wrappers are now compared "
                                        "with the Lean model GenericFr (loader/decompressor supplied as a table computed with the real library)")
@@ -1191,5 +1427,5 @@ def install(g: dict, prop: str) -> None:
     g["REQUIRED_THEOREMS"] = list(g.get("REQUIRED_THEOREMS", [])) + THEOREMS[prop]
 
 
-COUNT = {"model_runs": 0, "direct_runs": 0}
+COUNT = {"model_runs": 0, "direct_runs": 0, "limit_remainders_checked": 0, "limit_remainders_partial_terminator_sep3": 0}
 run_real_generic = run_real
